@@ -23,6 +23,7 @@ CONSTANTS Emitters, RecsPer, QCap, Batch, BufSize, Flushers, Stoppers,
           ChunkAbort,   \* TRUE: chunkExporter may stop at the first failed chunk (the tree before fix c97476e, deviation D2)
           FixStopDone,  \* TRUE: sketched repair A (see "Sketched repairs" below); FALSE: the code as it is
           FixClosed,    \* TRUE: sketched repair B; FALSE: the code as it is
+          Cancels,      \* callers (ForceFlush / Shutdown calls) whose context may be cancelled / expire at any moment
           Admit         \* set of named deviations admitted by Contract (Known = the code as it is; see below)
 
 VARIABLES q,         \* ring queue contents, oldest first: sequence of [id, c]
@@ -44,9 +45,11 @@ VARIABLES q,         \* ring queue contents, oldest first: sequence of [id, c]
           caller,    \* id -> version of the caller's own record ("v0" at Emit, "v1" after it mutated it)
           qclosed,   \* repair B only: the queue refuses records (set by q.Flush() under the queue lock)
           stopDone,  \* repair A only: channel closed by the Shutdown that did the work, just before it returns
+          cancelled, \* caller -> its context is done (cancelled or past its deadline)
+          ferr,      \* flusher -> its ForceFlush is going to return an error (ctx.Err(), errPartialFlush)
           mon        \* monitor record
-vars == <<q, dropped, trig, kill, stopped, input, inputMu, xstopped, closed, resp, pc, eidx, plen, cur, sbatch, serr, caller, qclosed, stopDone, mon>>
-proto == <<q, dropped, trig, kill, stopped, input, inputMu, xstopped, closed, resp, eidx, plen, cur, sbatch, serr, caller, qclosed, stopDone>>
+vars == <<q, dropped, trig, kill, stopped, input, inputMu, xstopped, closed, resp, pc, eidx, plen, cur, sbatch, serr, caller, qclosed, stopDone, cancelled, ferr, mon>>
+proto == <<q, dropped, trig, kill, stopped, input, inputMu, xstopped, closed, resp, eidx, plen, cur, sbatch, serr, caller, qclosed, stopDone, cancelled, ferr>>
 
 Ids == Emitters \X (1..RecsPer)
 Procs == Emitters \cup Flushers \cup Stoppers \cup {"poll", "x"}
@@ -63,6 +66,7 @@ I0 == [q |-> <<>>, dropped |-> 0, trig |-> FALSE, kill |-> FALSE, stopped |-> FA
        pc |-> [p \in Procs |-> IF p = "poll" THEN "select" ELSE IF p = "x" THEN "recv" ELSE "idle"],
        eidx |-> [g \in Emitters |-> 1], plen |-> 0, cur |-> NoItem, sbatch |-> <<>>, serr |-> "",
        caller |-> [id \in Ids |-> "v0"], qclosed |-> FALSE, stopDone |-> FALSE,
+       cancelled |-> [c \in Callers |-> FALSE], ferr |-> [f \in Flushers |-> FALSE],
        mon |-> [inflight |-> <<>>, handed |-> [id \in Ids |-> 0], last |-> [g \in Emitters |-> 0],
                 overwritten |-> {}, ignored |-> {}, aborted |-> {}, sdheld |-> {}, returned |-> {}, flushed |-> FALSE, tooLate |-> {},
                 snap |-> [c \in Callers |-> {}], early |-> [c \in Callers |-> "no"],
@@ -71,9 +75,18 @@ Init ==
   /\ q = I0.q /\ dropped = I0.dropped /\ trig = I0.trig /\ kill = I0.kill /\ stopped = I0.stopped
   /\ input = I0.input /\ inputMu = I0.inputMu /\ xstopped = I0.xstopped /\ closed = I0.closed
   /\ resp = I0.resp /\ pc = I0.pc /\ eidx = I0.eidx /\ plen = I0.plen /\ cur = I0.cur /\ sbatch = I0.sbatch
-  /\ serr = I0.serr /\ caller = I0.caller /\ qclosed = I0.qclosed /\ stopDone = I0.stopDone /\ mon = I0.mon
+  /\ serr = I0.serr /\ caller = I0.caller /\ qclosed = I0.qclosed /\ stopDone = I0.stopDone
+  /\ cancelled = I0.cancelled /\ ferr = I0.ferr /\ mon = I0.mon
 
 Go(p, l) == pc' = [pc EXCEPT ![p] = l]
+
+(* ---------------------------------------------------------------- caller contexts *)
+(* The context of a ForceFlush / Shutdown call is cancelled or runs past its deadline: at any moment, also before the  *)
+(* call is made.  The statement promises nothing about delivery for a call that returns an error; everything           *)
+(* unconditional (exactly once, order, chunk bound, exclusivity, content, nothing after a Shutdown that returned nil)   *)
+(* still holds, and what an abandoned call has handed to the export buffer is still exported exactly once.             *)
+Cancel(c) == /\ c \in Cancels /\ ~cancelled[c] /\ cancelled' = [cancelled EXCEPT ![c] = TRUE]
+             /\ UNCHANGED <<q, dropped, trig, kill, stopped, input, inputMu, xstopped, closed, resp, pc, eidx, plen, cur, sbatch, serr, caller, qclosed, stopDone, ferr, mon>>
 
 (* ---------------------------------------------------------------- emitters *)
 ECall(g) == /\ pc[g] = "idle" /\ eidx[g] <= RecsPer /\ Go(g, "check") /\ UNCHANGED <<proto, mon>>
@@ -96,49 +109,51 @@ EEnqueue(g) ==
             /\ mon' = [mon EXCEPT !.overwritten = IF full THEN @ \cup {Head(q).id} ELSE @,
                                    !.tooLate = IF mon.flushed THEN @ \cup {e.id} ELSE @]
             /\ Go(g, IF Len(q2) >= Batch THEN "trig" ELSE "ret")
-  /\ UNCHANGED <<trig, kill, stopped, input, inputMu, xstopped, closed, resp, eidx, plen, cur, sbatch, serr, caller, qclosed, stopDone>>
+  /\ UNCHANGED <<trig, kill, stopped, input, inputMu, xstopped, closed, resp, eidx, plen, cur, sbatch, serr, caller, qclosed, stopDone, cancelled, ferr>>
 ETrigger(g) == /\ pc[g] = "trig" /\ trig' = TRUE /\ Go(g, "ret")    \* non-blocking send, capacity 1
-               /\ UNCHANGED <<q, dropped, kill, stopped, input, inputMu, xstopped, closed, resp, eidx, plen, cur, sbatch, serr, caller, qclosed, stopDone, mon>>
+               /\ UNCHANGED <<q, dropped, kill, stopped, input, inputMu, xstopped, closed, resp, eidx, plen, cur, sbatch, serr, caller, qclosed, stopDone, cancelled, ferr, mon>>
 (* Emit returns; from now on the caller may change its own record (merged into this step) *)
 ERet(g) == /\ pc[g] = "ret" /\ Go(g, "idle")
            /\ LET id == <<g, eidx[g]>> IN
               /\ mon' = [mon EXCEPT !.returned = @ \cup {id}]
               /\ caller' = [caller EXCEPT ![id] = "v1"]
            /\ eidx' = [eidx EXCEPT ![g] = @ + 1]
-           /\ UNCHANGED <<q, dropped, trig, kill, stopped, input, inputMu, xstopped, closed, resp, plen, cur, sbatch, serr, qclosed, stopDone>>
+           /\ UNCHANGED <<q, dropped, trig, kill, stopped, input, inputMu, xstopped, closed, resp, plen, cur, sbatch, serr, qclosed, stopDone, cancelled, ferr>>
 
 (* ---------------------------------------------------------------- poll goroutine *)
 PollTick == /\ Ticker /\ pc["poll"] = "select" /\ Go("poll", "work") /\ UNCHANGED <<proto, mon>>
 PollTrig == /\ pc["poll"] = "select" /\ trig /\ trig' = FALSE /\ Go("poll", "work")
-            /\ UNCHANGED <<q, dropped, kill, stopped, input, inputMu, xstopped, closed, resp, eidx, plen, cur, sbatch, serr, caller, qclosed, stopDone, mon>>
+            /\ UNCHANGED <<q, dropped, kill, stopped, input, inputMu, xstopped, closed, resp, eidx, plen, cur, sbatch, serr, caller, qclosed, stopDone, cancelled, ferr, mon>>
 PollKill == /\ pc["poll"] = "select" /\ kill /\ Go("poll", "done") /\ UNCHANGED <<proto, mon>>
 (* q.Dropped(): atomic swap of the overwrite counter, reported by the "dropped log records" warning.   *)
 (* A separate step from Ready(): the recorded traces show overwrites (and buffer changes) between the *)
 (* two (learnt from the implementation-level trace validation, see docs/notes/C06.md).                 *)
 PollDropped == /\ pc["poll"] = "work" /\ Go("poll", "ready")
                /\ dropped' = 0 /\ mon' = [mon EXCEPT !.logged = @ + dropped]
-               /\ UNCHANGED <<q, trig, kill, stopped, input, inputMu, xstopped, closed, resp, eidx, plen, cur, sbatch, serr, caller, qclosed, stopDone>>
+               /\ UNCHANGED <<q, trig, kill, stopped, input, inputMu, xstopped, closed, resp, eidx, plen, cur, sbatch, serr, caller, qclosed, stopDone, cancelled, ferr>>
 (* exporter.Ready() = the input channel is not full *)
 PollReady == /\ pc["poll"] = "ready" /\ Go("poll", IF Len(input) < BufSize THEN "deq" ELSE "len") /\ UNCHANGED <<proto, mon>>
 (* not ready: qLen = q.Len() under the queue lock -- a later moment than Ready(): a recorded trace shows the export  *)
 (* goroutine emptying the buffer and an Enqueue between the two reads (found by Trace_BatchLPImpl.tla)               *)
 PollLen == /\ pc["poll"] = "len" /\ plen' = Len(q) /\ Go("poll", "retrig")
-           /\ UNCHANGED <<q, dropped, trig, kill, stopped, input, inputMu, xstopped, closed, resp, eidx, cur, sbatch, serr, caller, qclosed, stopDone, mon>>
+           /\ UNCHANGED <<q, dropped, trig, kill, stopped, input, inputMu, xstopped, closed, resp, eidx, cur, sbatch, serr, caller, qclosed, stopDone, cancelled, ferr, mon>>
 (* TryDequeue(buf[:Batch], EnqueueExport): copy out, offer to the buffer inside the queue lock, commit only on success *)
 PollDequeue ==
   /\ pc["poll"] = "deq"
   /\ LET n == Min(Batch, Len(q)) IN
      IF n = 0 THEN UNCHANGED <<q, input>>                \* EnqueueExport(empty) = true without touching inputMu
      ELSE /\ inputMu = "none"
-          /\ IF Len(input) >= BufSize
+          /\ IF xstopped                                 \* only after a Shutdown whose context ended before the poll goroutine
+               THEN q' = Drop(q, n) /\ UNCHANGED input    \* had exited: EnqueueExport says "true", the records are gone
+               ELSE IF Len(input) >= BufSize
                THEN UNCHANGED <<q, input>>               \* buffer full: read pointer restored
                ELSE /\ input' = Append(input, [recs |-> SubSeq(q, 1, n), resp |-> "none"])
                     /\ q' = Drop(q, n)
   /\ plen' = Len(q') /\ Go("poll", "retrig")
-  /\ UNCHANGED <<dropped, trig, kill, stopped, inputMu, xstopped, closed, resp, eidx, cur, sbatch, serr, caller, qclosed, stopDone, mon>>
+  /\ UNCHANGED <<dropped, trig, kill, stopped, inputMu, xstopped, closed, resp, eidx, cur, sbatch, serr, caller, qclosed, stopDone, cancelled, ferr, mon>>
 PollRetrig == /\ pc["poll"] = "retrig"
               /\ trig' = (trig \/ plen >= Batch) /\ plen' = 0 /\ Go("poll", "select")
-              /\ UNCHANGED <<q, dropped, kill, stopped, input, inputMu, xstopped, closed, resp, eidx, cur, sbatch, serr, caller, qclosed, stopDone, mon>>
+              /\ UNCHANGED <<q, dropped, kill, stopped, input, inputMu, xstopped, closed, resp, eidx, cur, sbatch, serr, caller, qclosed, stopDone, cancelled, ferr, mon>>
 
 (* ---------------------------------------------------------------- export goroutine (exportSync) *)
 Respond(r, val) == IF r = "none" THEN resp ELSE [resp EXCEPT ![r] = val]
@@ -147,7 +162,7 @@ XRecv == /\ pc["x"] = "recv" /\ input # <<>>
          /\ IF Head(input).recs = <<>>
               THEN (resp' = Respond(Head(input).resp, "ok") /\ UNCHANGED <<pc, cur>>)     \* flush marker
               ELSE (cur' = [recs |-> Head(input).recs, resp |-> Head(input).resp, err |-> FALSE] /\ Go("x", "chunk") /\ UNCHANGED resp)
-         /\ UNCHANGED <<q, dropped, trig, kill, stopped, inputMu, xstopped, closed, eidx, plen, sbatch, serr, caller, qclosed, stopDone, mon>>
+         /\ UNCHANGED <<q, dropped, trig, kill, stopped, inputMu, xstopped, closed, eidx, plen, sbatch, serr, caller, qclosed, stopDone, cancelled, ferr, mon>>
 XDone == /\ pc["x"] = "recv" /\ input = <<>> /\ closed /\ Go("x", "done") /\ UNCHANGED <<proto, mon>>
 Content(e) == IF e.c = "ref" THEN caller[e.id] ELSE e.c
 Chunk == SubSeq(cur.recs, 1, Min(Batch, Len(cur.recs)))
@@ -184,7 +199,7 @@ XEnd(ok, abort) ==
        ELSE /\ cur' = NoItem /\ Go("x", "recv")
             /\ resp' = Respond(cur.resp, IF failed THEN "err" ELSE "ok")
             /\ mon' = [mon EXCEPT !.inflight = <<>>, !.aborted = @ \cup IdsOf(rest)]
-  /\ UNCHANGED <<q, dropped, trig, kill, stopped, input, inputMu, xstopped, closed, eidx, plen, sbatch, serr, caller, qclosed, stopDone>>
+  /\ UNCHANGED <<q, dropped, trig, kill, stopped, input, inputMu, xstopped, closed, eidx, plen, sbatch, serr, caller, qclosed, stopDone, cancelled, ferr>>
 
 (* ---------------------------------------------------------------- flushers *)
 (* the record was enqueued after the final q.Flush(): it sits in the ring for good, or a ForceFlush that was  *)
@@ -218,23 +233,35 @@ FDequeue(f) ==
      \/ /\ q # <<>> /\ inputMu = "none" /\ ~xstopped /\ Len(input) < BufSize
         /\ input' = Append(input, [recs |-> q, resp |-> "none"]) /\ q' = <<>>
   /\ Go(f, "mlock")
-  /\ UNCHANGED <<dropped, trig, kill, stopped, inputMu, xstopped, closed, resp, eidx, plen, cur, sbatch, serr, caller, qclosed, stopDone, mon>>
+  /\ UNCHANGED <<dropped, trig, kill, stopped, inputMu, xstopped, closed, resp, eidx, plen, cur, sbatch, serr, caller, qclosed, stopDone, cancelled, ferr, mon>>
+(* a failed attempt (buffer full) is followed by ctxErr(ctx): a done context ends the loop with errPartialFlush; the     *)
+(* marker is tried all the same.  (The first attempt is made whatever the context says.)                              *)
+FGiveUp(f) == /\ pc[f] = "deq" /\ cancelled[f]
+              /\ q # <<>> /\ inputMu = "none" /\ ~xstopped /\ Len(input) >= BufSize
+              /\ ferr' = [ferr EXCEPT ![f] = TRUE] /\ Go(f, "mlock")
+              /\ UNCHANGED <<q, dropped, trig, kill, stopped, input, inputMu, xstopped, closed, resp, eidx, plen, cur, sbatch, serr, caller, qclosed, stopDone, cancelled, mon>>
 (* bufferExporter.ForceFlush -> enqueue(marker): lock inputMu, check stopped, blocking send, unlock *)
 FMLock(f) == /\ pc[f] = "mlock" /\ inputMu = "none"
              /\ IF xstopped THEN (IF FixStopDone THEN (Go(f, "sdwait") /\ UNCHANGED <<mon, inputMu>>)
                                                   ELSE (Go(f, "ret") /\ mon' = [mon EXCEPT !.early[f] = "exporter"] /\ UNCHANGED inputMu))
                             ELSE (Go(f, "msend") /\ inputMu' = f /\ UNCHANGED mon)
-             /\ UNCHANGED <<q, dropped, trig, kill, stopped, input, xstopped, closed, resp, eidx, plen, cur, sbatch, serr, caller, qclosed, stopDone>>
+             /\ UNCHANGED <<q, dropped, trig, kill, stopped, input, xstopped, closed, resp, eidx, plen, cur, sbatch, serr, caller, qclosed, stopDone, cancelled, ferr>>
 FMSend(f) == /\ pc[f] = "msend" /\ Len(input) < BufSize
              /\ input' = Append(input, [recs |-> <<>>, resp |-> f]) /\ inputMu' = "none" /\ Go(f, "mwait")
-             /\ UNCHANGED <<q, dropped, trig, kill, stopped, xstopped, closed, resp, eidx, plen, cur, sbatch, serr, caller, qclosed, stopDone, mon>>
+             /\ UNCHANGED <<q, dropped, trig, kill, stopped, xstopped, closed, resp, eidx, plen, cur, sbatch, serr, caller, qclosed, stopDone, cancelled, ferr, mon>>
+(* `select { case e.input <- data: case <-ctx.Done(): }` and `select { case <-resp: case <-ctx.Done(): }`: a done context  *)
+(* may win (also when the other case is ready: Go chooses); the marker, if sent, stays in the channel                     *)
+FMSendCancel(f) == /\ pc[f] = "msend" /\ cancelled[f] /\ inputMu' = "none" /\ ferr' = [ferr EXCEPT ![f] = TRUE] /\ Go(f, "ret")
+                   /\ UNCHANGED <<q, dropped, trig, kill, stopped, input, xstopped, closed, resp, eidx, plen, cur, sbatch, serr, caller, qclosed, stopDone, cancelled, mon>>
+FMWaitCancel(f) == /\ pc[f] = "mwait" /\ cancelled[f] /\ ferr' = [ferr EXCEPT ![f] = TRUE] /\ Go(f, "ret")
+                   /\ UNCHANGED <<q, dropped, trig, kill, stopped, input, inputMu, xstopped, closed, resp, eidx, plen, cur, sbatch, serr, caller, qclosed, stopDone, cancelled, mon>>
 (* marker answered, then the user exporter's ForceFlush.  Repair A: look at `stopped` once more *)
 FMWait(f) == /\ pc[f] = "mwait" /\ resp[f] # "none" /\ Go(f, IF FixStopDone /\ stopped THEN "sdwait" ELSE "ret")
              /\ UNCHANGED <<proto, mon>>
 (* repair A only: wait until the Shutdown that is doing the work has finished *)
 FWaitDone(f) == /\ pc[f] = "sdwait" /\ stopDone /\ Go(f, "ret") /\ UNCHANGED <<proto, mon>>
 FRet(f) == /\ pc[f] = "ret" /\ Go(f, "done")
-           /\ mon' = [mon EXCEPT !.bad = @ \cup {FCause(f, id) : id \in Missing(mon.snap[f])}]
+           /\ mon' = [mon EXCEPT !.bad = @ \cup (IF ferr[f] THEN {} ELSE {FCause(f, id) : id \in Missing(mon.snap[f])})]   \* an error promises nothing
            /\ UNCHANGED proto
 
 (* ---------------------------------------------------------------- stoppers *)
@@ -244,36 +271,51 @@ SSwap(s) == /\ pc[s] = "swap"
             /\ IF stopped THEN (IF FixStopDone THEN (Go(s, "sdwait") /\ UNCHANGED <<mon, stopped>>)
                                                 ELSE (Go(s, "ret") /\ mon' = [mon EXCEPT !.early[s] = "processor"] /\ UNCHANGED stopped))
                           ELSE (stopped' = TRUE /\ Go(s, "kill") /\ UNCHANGED mon)
-            /\ UNCHANGED <<q, dropped, trig, kill, input, inputMu, xstopped, closed, resp, eidx, plen, cur, sbatch, serr, caller, qclosed, stopDone>>
+            /\ UNCHANGED <<q, dropped, trig, kill, input, inputMu, xstopped, closed, resp, eidx, plen, cur, sbatch, serr, caller, qclosed, stopDone, cancelled, ferr>>
 SKill(s) == /\ pc[s] = "kill" /\ kill' = TRUE /\ Go(s, "waitpoll")
-            /\ UNCHANGED <<q, dropped, trig, stopped, input, inputMu, xstopped, closed, resp, eidx, plen, cur, sbatch, serr, caller, qclosed, stopDone, mon>>
+            /\ UNCHANGED <<q, dropped, trig, stopped, input, inputMu, xstopped, closed, resp, eidx, plen, cur, sbatch, serr, caller, qclosed, stopDone, cancelled, ferr, mon>>
 SWaitPoll(s) == /\ pc[s] = "waitpoll" /\ pc["poll"] = "done" /\ Go(s, "flush") /\ UNCHANGED <<proto, mon>>
+(* `select { case <-b.pollDone: case <-ctx.Done(): return errors.Join(ctx.Err(), b.exporter.Shutdown(ctx)) }`: the final  *)
+(* flush is skipped, whatever is queued stays there; the poll goroutine may still be on its way out                       *)
+SWaitPollCancel(s) == /\ pc[s] = "waitpoll" /\ cancelled[s] /\ serr' = "err" /\ Go(s, "xshut")
+                      /\ UNCHANGED <<q, dropped, trig, kill, stopped, input, inputMu, xstopped, closed, resp, eidx, plen, cur, sbatch, caller, qclosed, stopDone, cancelled, ferr, mon>>
 (* exporter.Export(ctx, q.Flush()): Flush under the queue lock, then (unless empty) enqueue with a   *)
 (* blocking send under inputMu and wait for the answer of the export goroutine                       *)
 SFlush(s) == /\ pc[s] = "flush"
              /\ sbatch' = q /\ q' = <<>> /\ Go(s, IF q = <<>> THEN "xshut" ELSE "elock")
              /\ mon' = [mon EXCEPT !.sdheld = IdsOf(q), !.flushed = TRUE]
              /\ qclosed' = FixClosed                           \* repair B: Flush() closes the queue under its lock
-             /\ UNCHANGED <<dropped, trig, kill, stopped, input, inputMu, xstopped, closed, resp, eidx, plen, cur, serr, caller, stopDone>>
+             /\ UNCHANGED <<dropped, trig, kill, stopped, input, inputMu, xstopped, closed, resp, eidx, plen, cur, serr, caller, stopDone, cancelled, ferr>>
 SELock(s) == /\ pc[s] = "elock" /\ inputMu = "none"
              /\ IF xstopped THEN (Go(s, "xshut") /\ UNCHANGED inputMu) ELSE (Go(s, "esend") /\ inputMu' = s)
-             /\ UNCHANGED <<q, dropped, trig, kill, stopped, input, xstopped, closed, resp, eidx, plen, cur, sbatch, serr, caller, qclosed, stopDone, mon>>
+             /\ UNCHANGED <<q, dropped, trig, kill, stopped, input, xstopped, closed, resp, eidx, plen, cur, sbatch, serr, caller, qclosed, stopDone, cancelled, ferr, mon>>
 SESend(s) == /\ pc[s] = "esend" /\ Len(input) < BufSize
              /\ input' = Append(input, [recs |-> sbatch, resp |-> s]) /\ sbatch' = <<>> /\ inputMu' = "none" /\ Go(s, "ewait")
-             /\ UNCHANGED <<q, dropped, trig, kill, stopped, xstopped, closed, resp, eidx, plen, cur, serr, caller, qclosed, stopDone, mon>>
+             /\ UNCHANGED <<q, dropped, trig, kill, stopped, xstopped, closed, resp, eidx, plen, cur, serr, caller, qclosed, stopDone, cancelled, ferr, mon>>
 SEWait(s) == /\ pc[s] = "ewait" /\ resp[s] # "none"
              /\ serr' = (IF resp[s] = "err" THEN "err" ELSE "") /\ Go(s, "xshut")
-             /\ UNCHANGED <<q, dropped, trig, kill, stopped, input, inputMu, xstopped, closed, resp, eidx, plen, cur, sbatch, caller, qclosed, stopDone, mon>>
+             /\ UNCHANGED <<q, dropped, trig, kill, stopped, input, inputMu, xstopped, closed, resp, eidx, plen, cur, sbatch, caller, qclosed, stopDone, cancelled, ferr, mon>>
+(* bufferExporter.Export gives up: before the send ("dropping %d records": they are lost with an error) or while waiting   *)
+(* for the answer (the request stays in the buffer and is exported all the same)                                          *)
+SESendCancel(s) == /\ pc[s] = "esend" /\ cancelled[s] /\ inputMu' = "none" /\ sbatch' = <<>> /\ serr' = "err" /\ Go(s, "xshut")
+                   /\ UNCHANGED <<q, dropped, trig, kill, stopped, input, xstopped, closed, resp, eidx, plen, cur, caller, qclosed, stopDone, cancelled, ferr, mon>>
+SEWaitCancel(s) == /\ pc[s] = "ewait" /\ cancelled[s] /\ serr' = "err" /\ Go(s, "xshut")
+                   /\ UNCHANGED <<q, dropped, trig, kill, stopped, input, inputMu, xstopped, closed, resp, eidx, plen, cur, sbatch, caller, qclosed, stopDone, cancelled, ferr, mon>>
 (* bufferExporter.Shutdown: swap stopped; lock inputMu; close(input); wait for the export goroutine; *)
 (* user exporter Shutdown; unlock                                                                     *)
 SXSwap(s) == /\ pc[s] = "xshut" /\ xstopped' = TRUE /\ Go(s, IF xstopped THEN "ret" ELSE "xlock")
              /\ stopDone' = (stopDone \/ (FixStopDone /\ xstopped))
-             /\ UNCHANGED <<q, dropped, trig, kill, stopped, input, inputMu, closed, resp, eidx, plen, cur, sbatch, serr, caller, qclosed, mon>>
+             /\ UNCHANGED <<q, dropped, trig, kill, stopped, input, inputMu, closed, resp, eidx, plen, cur, sbatch, serr, caller, qclosed, cancelled, ferr, mon>>
 SXLock(s) == /\ pc[s] = "xlock" /\ inputMu = "none" /\ inputMu' = s /\ closed' = TRUE /\ Go(s, "xwait")
-             /\ UNCHANGED <<q, dropped, trig, kill, stopped, input, xstopped, resp, eidx, plen, cur, sbatch, serr, caller, qclosed, stopDone, mon>>
+             /\ UNCHANGED <<q, dropped, trig, kill, stopped, input, xstopped, resp, eidx, plen, cur, sbatch, serr, caller, qclosed, stopDone, cancelled, ferr, mon>>
 SXWait(s) == /\ pc[s] = "xwait" /\ pc["x"] = "done" /\ inputMu' = "none" /\ Go(s, "ret")
              /\ stopDone' = FixStopDone                        \* repair A: close(stopDone) as the last thing Shutdown does
-             /\ UNCHANGED <<q, dropped, trig, kill, stopped, input, xstopped, closed, resp, eidx, plen, cur, sbatch, serr, caller, qclosed, mon>>
+             /\ UNCHANGED <<q, dropped, trig, kill, stopped, input, xstopped, closed, resp, eidx, plen, cur, sbatch, serr, caller, qclosed, cancelled, ferr, mon>>
+(* `select { case <-e.done: case <-ctx.Done(): return errors.Join(ctx.Err(), e.Exporter.Shutdown(ctx)) }`: the user       *)
+(* exporter is shut down while the export goroutine may still be exporting what is buffered; Shutdown returns an error    *)
+SXWaitCancel(s) == /\ pc[s] = "xwait" /\ cancelled[s] /\ inputMu' = "none" /\ serr' = "err" /\ Go(s, "ret")
+                   /\ stopDone' = FixStopDone
+                   /\ UNCHANGED <<q, dropped, trig, kill, stopped, input, xstopped, closed, resp, eidx, plen, cur, sbatch, caller, qclosed, cancelled, ferr, mon>>
 (* repair A only: a Shutdown that found `stopped` set waits for the one doing the work *)
 SWaitDone(s) == /\ pc[s] = "sdwait" /\ stopDone /\ Go(s, "ret") /\ UNCHANGED <<proto, mon>>
 SRet(s) == /\ pc[s] = "ret" /\ Go(s, "done")
@@ -287,17 +329,22 @@ Next == \/ \E g \in Emitters : ECall(g) \/ ECheck(g) \/ EEnqueue(g) \/ ETrigger(
         \/ PollTick \/ PollTrig \/ PollKill \/ PollDropped \/ PollReady \/ PollLen \/ PollDequeue \/ PollRetrig
         \/ XRecv \/ XDone \/ XBegin \/ XEnd(TRUE, FALSE) \/ (Faults /\ (XEnd(FALSE, FALSE) \/ (ChunkAbort /\ XEnd(FALSE, TRUE))))
         \/ \E f \in Flushers : FCall(f) \/ FCheck(f) \/ FDequeue(f) \/ FMLock(f) \/ FMSend(f) \/ FMWait(f) \/ FWaitDone(f) \/ FRet(f)
+                               \/ FGiveUp(f) \/ FMSendCancel(f) \/ FMWaitCancel(f)
         \/ \E s \in Stoppers : SCall(s) \/ SSwap(s) \/ SKill(s) \/ SWaitPoll(s) \/ SFlush(s) \/ SELock(s) \/ SESend(s)
                                \/ SEWait(s) \/ SXSwap(s) \/ SXLock(s) \/ SXWait(s) \/ SWaitDone(s) \/ SRet(s)
+                               \/ SWaitPollCancel(s) \/ SESendCancel(s) \/ SEWaitCancel(s) \/ SXWaitCancel(s)
+        \/ \E c \in Callers : Cancel(c)
 
 (* Go's select chooses at random among the ready cases: a closed pollKill is taken eventually even if the ticker *)
 (* keeps firing (strong fairness); everything else only needs weak fairness.                                      *)
 Fairness == /\ WF_vars(PollTrig \/ PollDropped \/ PollReady \/ PollLen \/ PollDequeue \/ PollRetrig) /\ SF_vars(PollKill)
             /\ WF_vars(XRecv \/ XDone \/ XBegin \/ XEnd(TRUE, FALSE))
             /\ \A g \in Emitters : WF_vars(ECheck(g) \/ EEnqueue(g) \/ ETrigger(g) \/ ERet(g))
-            /\ \A f \in Flushers : WF_vars(FCheck(f) \/ FMLock(f) \/ FMSend(f) \/ FMWait(f) \/ FWaitDone(f) \/ FRet(f)) /\ SF_vars(FDequeue(f))
+            /\ \A f \in Flushers : WF_vars(FCheck(f) \/ FMLock(f) \/ FMSend(f) \/ FMWait(f) \/ FWaitDone(f) \/ FRet(f) \/ FMSendCancel(f) \/ FMWaitCancel(f))
+                                     /\ SF_vars(FDequeue(f) \/ FGiveUp(f))
             /\ \A s \in Stoppers : WF_vars(SSwap(s) \/ SKill(s) \/ SWaitPoll(s) \/ SFlush(s) \/ SELock(s) \/ SESend(s)
-                                           \/ SEWait(s) \/ SXSwap(s) \/ SXLock(s) \/ SXWait(s) \/ SWaitDone(s) \/ SRet(s))
+                                           \/ SEWait(s) \/ SXSwap(s) \/ SXLock(s) \/ SXWait(s) \/ SWaitDone(s) \/ SRet(s)
+                                           \/ SWaitPollCancel(s) \/ SESendCancel(s) \/ SEWaitCancel(s) \/ SXWaitCancel(s))
 Spec == Init /\ [][Next]_vars
 FairSpec == Spec /\ Fairness
 
